@@ -58,7 +58,7 @@ def sim_parts(quick):
                     Ops='{"send", "gsend", "burst", "quota", "ack", "acktop", "adv", "tick"}')
     deep_hs = dict(base, Start='"fresh"', BurstMode="TRUE", Depth=40,
                    Ops='{"send", "gsend", "quota", "ack", "acktop", "adv", "tick", "discard", "phase"}')
-    n = 80 if quick else 1000
+    n = 80 if quick else 400
     return [("walks/est", deep_est, {"num": n, "depth": 70}), ("walks/handshake", deep_hs, {"num": n, "depth": 50})]
 
 
